@@ -695,12 +695,7 @@ func (p *Prog) staticClosure(fn *ssa.Function, maxDepth int, skip func(*ssa.Func
 					seen[g] = true
 					out = append(out, g)
 				}
-				allInstrs(g, func(in ssa.Instruction) {
-					ci, ok := in.(ssa.CallInstruction)
-					if !ok {
-						return
-					}
-					c := ci.Common().StaticCallee()
+				add := func(c *ssa.Function) {
 					if c == nil || !p.InPkg(c) || c.Blocks == nil || seen[c] {
 						return
 					}
@@ -710,6 +705,19 @@ func (p *Prog) staticClosure(fn *ssa.Function, maxDepth int, skip func(*ssa.Func
 					seen[c] = true
 					out = append(out, c)
 					next = append(next, c)
+				}
+				allInstrs(g, func(in ssa.Instruction) {
+					if ci, ok := in.(ssa.CallInstruction); ok {
+						add(ci.Common().StaticCallee())
+					}
+					// package functions taken as values (`compare := execNumberCompare`) are reached too
+					for _, op := range in.Operands(nil) {
+						if op != nil && *op != nil {
+							if f, ok := (*op).(*ssa.Function); ok && f.Parent() == nil {
+								add(f)
+							}
+						}
+					}
 				})
 			}
 		}
